@@ -1,4 +1,5 @@
 import SFV.Lemmas.Ledger
+import SFV.Lemmas.Slots
 import SFV.Lemmas.HW
 import SFV.Model.Sched
 /-! # C10 — the scheduler never over-allocates a location
@@ -59,6 +60,33 @@ theorem isValid_slot_level (s : Sched.St) (reqs : List (Sched.LocKey × Hardware
   simp only [Sched.isValid, hq, hc, slotFree]
   by_cases h : (Sched.runningJobs s step tag lvl).length < lvl.slots.getD slotsDefault <;> simp [h, pure, Except.pure]
 
+/-- **what `_allocate_job` does to the books of one location** (`hardware_locations[loc] += hardware[key]`): cores,
+    memory and every mount point go up by exactly the requirement's amounts -/
+theorem allocate_adds_exact (cur h r : Hardware) (hadd : cur.add h = .ok r) :
+    r.cores = cur.cores + h.cores ∧ r.memory = cur.memory + h.memory ∧
+    ∀ μ, mountTotal r.storage μ = mountTotal cur.storage μ + mountTotal h.storage μ :=
+  add_totals_lem cur h r hadd
+
+/-- the model's `_allocate_job` loop on a location without inner levels: the job is listed there and the books of the
+    location get `+ requirement` (or the normalised requirement when the location had no books yet) -/
+theorem allocLevels_single (reqs : List (Sched.LocKey × Hardware)) (job : Nat) (lvl : Sched.Level) (s : Sched.St) (h : Hardware)
+    (hq : Sched.assocGet reqs (lvl.dep, lvl.name) = some h) :
+    Sched.allocLevels reqs job [lvl] s =
+      let s1 := { s with locJobs := Sched.appendJob s.locJobs (lvl.dep, lvl.name) job }
+      match Sched.assocGet s.reserved lvl.name with
+      | some cur =>
+          match cur.add h with
+          | .ok r => ({ s1 with reserved := Sched.assocSet s1.reserved lvl.name r }, none)
+          | .error e => (s1, some (.hw e))
+      | none =>
+          match h.normalized with
+          | .ok r => ({ s1 with reserved := Sched.assocSet s1.reserved lvl.name r }, none)
+          | .error e => (s1, some (.hw e)) := by
+  simp only [Sched.allocLevels, hq]
+  cases hc : Sched.assocGet s.reserved lvl.name with
+  | none => simp only []; cases h.normalized <;> rfl
+  | some cur => simp only []; cases cur.add h <;> rfl
+
 /-- **bookkeeping invariant** (every history that follows the protocol, every configuration): at every location the
     reserved amount is what the occupying jobs were given there plus the measured usage left by finished jobs -/
 theorem reserved_eq_sum (cap : Loc → Rat) (hcap : ∀ ℓ, 0 ≤ cap ℓ) (ops : List Op) (hok : HistoryOk cap init ops) (ℓ : Loc) :
@@ -73,6 +101,35 @@ theorem reserved_eq_sum (cap : Loc → Rat) (hcap : ∀ ℓ, 0 ≤ cap ℓ) (ops
 theorem never_overallocated_partial (cap : Loc → Rat) (hcap : ∀ ℓ, 0 ≤ cap ℓ) (ops : List Op)
     (hok : HistoryOk cap init ops) (ℓ : Loc) : occSum (run cap init ops) ℓ ≤ cap ℓ :=
   (inv_run ops (inv_init cap hcap) hok).bound ℓ
+
+/-- **slot-only locations, under the engine protocol**: after every history, on every location the number of fireable /
+    running jobs placed there (counted once each, whatever the duplicates in the location's job list) does not exceed the
+    slots; `locs` of an allocation are the slot-only levels of the selected locations, each guarded by
+    `len(_get_running_jobs) < slots` as in `_is_valid` -/
+theorem slots_never_exceeded_partial (c : Slots.Cfg) (ops : List Slots.Op) (hok : Slots.HistoryOk c Slots.init ops) (ℓ : Loc) :
+    Slots.occCount (Slots.run c Slots.init ops) ℓ ≤ c.slots ℓ :=
+  (Slots.inv_run c ops _ (Slots.inv_init c) hok).bound ℓ
+
+/-- without the protocol the slot bound fails too: a COMPLETED job notified RUNNING again occupies a slot that was given
+    to another job (one slot, two running jobs) -/
+theorem slots_never_exceeded_false :
+    ¬ (∀ (c : Slots.Cfg) (ops : List Slots.Op) (ℓ : Loc), Slots.occCount (Slots.run c Slots.init ops) ℓ ≤ c.slots ℓ) := by
+  intro h
+  have := h ⟨fun _ => 1, fun _ => 0, fun _ _ => 0⟩
+    [.allocate 1 [0] [0], .notify 1 .completed, .allocate 2 [0] [0], .notify 1 .running] 0
+  revert this
+  decide
+
+/-- non-vacuity: three jobs on a two-slot location, one rolled back and re-allocated -/
+example : Slots.HistoryOk ⟨fun _ => 2, fun j => j, fun _ _ => 0⟩ Slots.init
+    [.allocate 1 [0] [0], .allocate 2 [0] [0], .allocate 3 [0] [0], .notify 1 .running, .notify 2 .rollback,
+     .allocate 3 [0] [0], .notify 1 .completed, .allocate 2 [0] [0]] ∧
+    Slots.occCount (Slots.run ⟨fun _ => 2, fun j => j, fun _ _ => 0⟩ Slots.init
+      [.allocate 1 [0] [0], .allocate 2 [0] [0], .allocate 3 [0] [0], .notify 1 .running, .notify 2 .rollback,
+       .allocate 3 [0] [0], .notify 1 .completed, .allocate 2 [0] [0]]) 0 = 2 := by
+  refine ⟨?_, by decide⟩
+  simp only [Slots.HistoryOk, Slots.OpOk]
+  decide
 
 /-- the out-of-protocol history of the known finding: one job FIREABLE → COMPLETED → RUNNING → COMPLETED, then two
     2-core jobs on the 2-core location 0 -/
